@@ -167,6 +167,10 @@ def apply_query(string, query=None, type=None, fields=None):
     if not query:
         return string, type, fields
 
+    if string and not type:
+        # an untyped, non empty string cannot be updated: the query would replace it altogether.
+        return "{}?{}".format(string, query), type, fields
+
     _type = type
 
     new_data = update(fields, query)
